@@ -10,7 +10,7 @@
    patch seeded/revert_fix_C20 re-introduces it; corpus/C20/{d02,d03,e01,e02}*.json are the witnesses. *)
 From Coq Require Import List ZArith QArith String Sorted.
 Import ListNotations.
-From AiuModel Require Import Base Pipeline CommSumm CommSumm_proofs.
+From AiuModel Require Import Base Pipeline CommSumm CommSumm_proofs JobIds JobIds_proofs.
 Local Open Scope Z_scope.
 
 (* (1) THE CORE.  [summarize] = the collection stage over the whole stream, then the apply stage over the
@@ -71,6 +71,27 @@ Theorem C20_key_is_file_and_number :
 Proof. exact key_is_file_and_number. Qed.
 Print Assumptions C20_key_is_file_and_number.
 
+(* (5b) "one input file" = one job: the ids the ingestion gives the inputs of one run (crc32(path) % 10000, next free
+   id on a clash; JobIds.v) are pairwise different for different paths and differ from the id of the multi-file
+   ingest itself, for any number of inputs below 10000 and whatever the hash values are - and the probing loop always
+   ends.  Until /repo commit d978a9e two paths with equal crc32 % 10000 were one job, and (5) then merged the
+   sequences of two files (corpus/C20/e02_two_inputs_share_a_job_id.json; seeded/revert_fix_C20c). *)
+Theorem C20_inputs_have_distinct_jobs :
+  forall (top : Z) (l : list (nat * Z)) (js : list Z),
+    run_ids top l = Some js -> Z.of_nat (List.length l) < 10000 ->
+    (forall a p h, nth_error l a = Some (p, h) -> p <> 0%nat) ->
+    List.length js = List.length l /\
+    forall a b pa ha pb hb ia ib, a <> b ->
+      nth_error l a = Some (pa, ha) -> nth_error l b = Some (pb, hb) ->
+      nth_error js a = Some ia -> nth_error js b = Some ib -> pa <> pb -> ia <> ib.
+Proof. exact run_ids_distinct. Qed.
+Print Assumptions C20_inputs_have_distinct_jobs.
+
+Theorem C20_job_ids_always_assigned :
+  forall (top : Z) (l : list (nat * Z)), Z.of_nat (List.length l) < 10000 -> run_ids top l <> None.
+Proof. exact run_ids_total. Qed.
+Print Assumptions C20_job_ids_always_assigned.
+
 (* (6) the operational pipeline of Pipeline.v with the three registrations of acelyzer.py
    (collection ; pipeline_barrier ; apply — the two comm stages SHARE one context, so stream_compose's
    well-formedness does not apply and this is proved directly) exports exactly [summarize es]. *)
@@ -129,4 +150,10 @@ Proof. vm_compute. reflexivity. Qed.
 Example C20_job0_seq0 :
   summarize_val [x 1 "SenRdma_0 a" 0 2 3 (PInt 1); x 2 "SenRdma_00 a" 0 3 1 PNone; x 3 "SenRdma_0 b" 0 6 3 (PInt 2)] =
   VL [ev_val (mg 2 "SenRdma_00 a" 0 3 1 PNone []); ev_val (mg 3 "SenRdma_0 " 0 2 7 (PInt 2) [1; 2])].
+Proof. vm_compute. reflexivity. Qed.
+
+(* three inputs, the 2nd collides with the 1st, the 3rd is the 1st path again; the top-level id is 7 *)
+Example C20_job_ids_example :
+  run_ids 7 [(1%nat, 8473); (2%nat, 18473); (1%nat, 8473); (3%nat, 7); (4%nat, 9999); (5%nat, 19999)]
+  = Some [8473; 8474; 8473; 8; 9999; 0].
 Proof. vm_compute. reflexivity. Qed.
